@@ -103,6 +103,7 @@ type RunDesc struct {
 	World     []ObjSpec `json:"world,omitempty"`
 	WorldReps []RepSpec `json:"world_reps,omitempty"`
 	Tasks     [][]Op    `json:"tasks"`
+	Storm     bool      `json:"storm,omitempty"`     // C16: one slow reader export while the other callers push dozens of reader exports
 	Burst     bool      `json:"burst,omitempty"`     // C16: sibling reports (same object, two languages) exported with one template by every task
 	CrossCap  int       `json:"cross_cap,omitempty"` // C15: how many (key,result) pairs this run reports for the cross-process comparison (default 600)
 	// replay files only
